@@ -122,8 +122,8 @@ def with_headers(wb):
 
 
 FMTS = ["md", "csv", "xls", "xlsx", "xlsm", "xlsx-openpyxl"]
-CHANNELS = {"md": ["str", "bytes", "BytesIO", "BytesIO-at-end", "BytesIO-twice", "file", "path_str", "path_like"],
-            "csv": ["str", "bytes", "BytesIO", "BytesIO-at-end", "BytesIO-twice", "file", "path_str", "path_like"],
+CHANNELS = {"md": ["str", "bytes", "bytes-bom", "BytesIO", "BytesIO-at-end", "BytesIO-twice", "file", "path_str", "path_like"],
+            "csv": ["str", "bytes", "bytes-bom", "bytes-blank-lines", "BytesIO", "BytesIO-at-end", "BytesIO-twice", "file", "path_str", "path_like"],
             "xls": ["bytes", "BytesIO", "BytesIO-at-end", "BytesIO-twice", "file", "path_str", "path_like"],
             "xlsx": ["bytes", "BytesIO", "BytesIO-at-end", "BytesIO-twice", "file", "path_str", "path_like"],
             "xlsm": ["bytes", "path_str"], "xlsx-openpyxl": ["bytes"]}
@@ -276,6 +276,15 @@ def deliver(src, fmt, ch, explicit, stem="stemX", suffix=None):
         return src, kw, None
     if ch == "bytes":
         return data, kw, None
+    if ch == "bytes-bom":
+        # as saved by a spreadsheet program: UTF-8 with a byte-order mark
+        return b"\xef\xbb\xbf" + data, kw, None
+    if ch == "bytes-blank-lines":
+        # a line of blanks between the rows of a sheet is an empty row
+        lines = data.split(b"\n")
+        k_ = next((i for i, ln in enumerate(lines) if ln.startswith(b'"",') or ln.startswith(b",")), 0) + 1
+        lines[k_:k_] = [b"   "]
+        return b"\n".join(lines), kw, None
     if ch == "BytesIO":
         return io.BytesIO(data), kw, None
     if ch == "BytesIO-at-end":
